@@ -499,6 +499,11 @@ def task_bus(t):
                             out.append(Violation('identity', 'bus:GetConnectionCredentials', 'uid %d config %s sequence %r: the mechanism established %r, GetConnectionCredentials reports UnixUserID %r (all keys: %r)' %
                                                  (uid, cfgname, seq, m.identity, seen_uid, sorted(creds)), case))
                         if m.identity == ('anon',):
+                            # ANONYMOUS establishes no user, no groups and no security label: whatever the socket could tell
+                            # about the peer is not part of its identity (the process id is reported for any local peer)
+                            extra = sorted(k for k in creds if k not in (b'ProcessID',))
+                            if extra:
+                                out.append(Violation('identity', 'bus:GetConnectionCredentials:anonymous', 'uid %d config %s sequence %r: an ANONYMOUS peer is reported with %r' % (uid, cfgname, seq, extra), case))
                             o = bus.step(c, R.encode_message(R.bus_call(4, 'GetConnectionUnixUser', [R.S(rep.body[0][1])])))
                             r4 = B.find_reply(o.get(c), 4)
                             if r4 is None or r4.mtype != R.MT_ERROR:
